@@ -26,7 +26,7 @@ EXTENDS Naturals, Sequences, FiniteSets, TLC, ClauseLib, Json, IOUtils, TLCExt
 
 Classes == {"none", "pri.flags", "pri.src", "pri.rpt", "pri.ts", "pri.lifetime", "pri.crc", "tgt.flags", "tgt.crc",
             "tgt.data", "tgt.num", "tgt.type", "sec.flags", "sec.num", "other.meta", "other.data", "sec.source",
-            "sec.scope", "sec.protected", "res.tag", "res.alg", "res.kid"}
+            "sec.scope", "sec.protected", "res.tag", "res.alg", "res.kid", "tgt.data+attached"}
 Primary == {"pri.flags", "pri.src", "pri.rpt", "pri.ts", "pri.lifetime", "pri.crc"}
 Scopes == [pri_meta : BOOLEAN, tgt_meta : BOOLEAN, tgt_btsd : BOOLEAN, sec_meta : BOOLEAN, oth_meta : BOOLEAN,
            oth_btsd : BOOLEAN]
@@ -34,6 +34,7 @@ Scopes == [pri_meta : BOOLEAN, tgt_meta : BOOLEAN, tgt_btsd : BOOLEAN, sec_meta 
 (* ---------------- declarative: the property ---------------- *)
 Covered(cls, scope) ==
   \/ cls \in {"tgt.data", "sec.source", "sec.scope", "sec.protected", "res.tag", "res.alg"}
+  \/ cls = "tgt.data+attached"   \* altered content with the genuine content embedded in the (to be detached) COSE payload
   \/ cls = "res.kid"                          \* not authenticated, but it selects the key: a wrong key must fail
   \/ cls \in Primary /\ scope.pri_meta
   \/ cls \in {"tgt.type", "tgt.num", "tgt.flags"} /\ scope.tgt_meta
@@ -48,6 +49,7 @@ CONSTANT Dev
 \* then the additional protected parameters; the COSE structure adds protected headers and the target data
 CodeBinds(cls, scope) ==
   \/ cls = "tgt.data"                                                          \* payload of the COSE structure
+  \/ cls = "tgt.data+attached" /\ "trusts_attached_payload" \notin Dev         \* the block content always replaces it
   \/ cls = "sec.source"
   \/ cls = "sec.scope"
   \/ cls = "sec.protected" /\ "aad_without_protected" \notin Dev
